@@ -272,7 +272,43 @@ def c08_3(ctx):
 
 
 # ------------------------------------------------------------------ C08.4
+STANDARD_TYPES = ("p2pkh", "p2sh", "p2pkh_wit", "p2sh_wit", "p2tr", "p2pk")
+
+
+def classified_through_matcher(ctx):
+    """a script is reported as one of the template kinds only on a path on which the template matcher accepted it: the matcher is
+    the one place that walks the script instruction by instruction (exact length, the push opcode, minimal pushes), so a second
+    recogniser next to it (a byte-layout fast path) is a second definition of `standard script` that for_info does not share"""
+    f = ctx.func(CAPI, "ContractAPI.info_for_script")
+    w = sym.walk(ctx, f)
+    n = 0
+    for e in w.exits:
+        if e.kind != "return" or e.value is None:
+            continue
+        v = e.value
+        t = None
+        if isinstance(v, ast.Dict):
+            for k, x in zip(v.keys, v.values):
+                if isinstance(k, ast.Constant) and k.value == "type" and isinstance(x, ast.Constant):
+                    t = x.value
+        elif isinstance(v, ast.Call) and norm(v.func) == "dict":
+            for k in v.keywords:
+                if k.arg == "type" and isinstance(k.value, ast.Constant):
+                    t = k.value.value
+        if t not in STANDARD_TYPES:
+            continue
+        n += 1
+        ops = [o for o in (gi.f_opaques(e.cond) if e.cond not in (True, False) else []) if isinstance(o, str)]
+        ms = [o for o in ops if o.startswith("truthy(self.match(")]
+        ok = any(sym.entails(e.cond, ("op", o)) for o in ms)
+        ctx.check(ok, "classified-through-matcher:%s" % t, ctx.where(f, e.node), "info_for_script reports a script as `%s` on a path on which the template matcher has not accepted it (tests: %s): a recogniser of its own beside the matcher; scripts that only look like the template by length or outline are classified as standard and for_info rebuilds a different script"
+                  % (t, [o[:50] for o in ops if not o.startswith("truthy(self.match(")][:3]), sample={"type": t, "matcher_test": (ms or [""])[0][:80]})
+    if n == 0:
+        ctx.undecided("classified-through-matcher", ctx.where(f), "info_for_script returns no literal {'type': <standard kind>} this rule can read")
+
+
 def c08_4(ctx):
+    classified_through_matcher(ctx)
     capi = ctx.p.cls(CAPI, "ContractAPI")
     f = capi.methods.get("_is_nonminimal_push")
     if f is None:
